@@ -239,8 +239,10 @@ def extract(frame, in_port):
   return p
 
 
-def matches(m, pkt):
-  e = effective(m)
+def matches(m, pkt, e=None):
+  """e: effective(m) if the caller has it already"""
+  if e is None:
+    e = effective(m)
   for f in MATCH_FIELDS:
     v = e[f]
     if v is None:
@@ -253,9 +255,10 @@ def matches(m, pkt):
   return True
 
 
-def ambiguous(m, pkt):
+def ambiguous(m, pkt, e=None):
   """Zones in which OpenFlow 1.0 does not settle whether `m` matches `pkt` (counted, not judged)."""
-  e = effective(m)
+  if e is None:
+    e = effective(m)
   notes = pkt.get("notes", ())
   z = []
   if e["nw_tos"] is not None and ("ecn" in notes or (e["nw_tos"] & 3)):
